@@ -4,6 +4,8 @@ import json, os
 V = os.path.dirname(os.path.dirname(os.path.abspath(__file__)))
 
 CLAIMED = {
+ "C02": ("seeded fault injection at the leaf getters and clocks of real combinator DAGs (Err/absent/present x timestamp order x expiry boundary) vs a table-driven outcome model; Sum2~SumStream, Product2~ProductStream and De Morgan twins", "5 C02"),
+ "C03": ("timestamps monitored on every datum leaving a stream / terminal / device under skewed, equal and extreme stamps; Datum operator impls and replace helpers through harness operator nodes (seeded sampling only, flagged)", "5 C03"),
  "C04": ("seeded fault-injecting simulation of input histories vs executable textbook-PID model + time-shift / 2^k-scaling twins", "5 C04"),
  "C05": ("seeded fault-injecting simulation of input histories: stale-error monitor, restart-as-oracle at reset events, absent-deletion and read-independence twins, bounded recovery", "5 C05"),
  "C10": ("seeded fault-injecting simulation of sample histories vs trapezoid/difference reference models with forward error bound, time-shift twin, mis-dimensioned sample faults", "5 C10"),
